@@ -307,7 +307,39 @@ HIST_BREAK = {          # where the code stops compiling after a first, successf
     "gomod": ("go.mod", "\nthis is not a go.mod directive\n"),
 }
 
+def probe_magefile(proj, extra=""):
+    """a small valid magefile whose bodies say which project they belong to"""
+    return ("//go:build mage\n\npackage main\n\nimport \"fmt\"\n\n// T1 of project %s.\nfunc T1() { fmt.Println(\"CALL T1 proj=%s\") }\n\n"
+            "func T2() { fmt.Println(\"CALL T2 proj=%s\") }\n%s" % (proj, proj, proj, extra))
+
+
+# what can be wrong with the project directory mage is started in
+NEST_BROKEN = {
+    "empty": {".keep": ""},
+    "notag": {"plain.go": "package main\n\nfunc helper() {}\n"},
+    "header": {"mf.go": "//go:build mage\n\npackage main\n\nimport (\n\t\"fmt\n)\n\nfunc T1() { fmt.Println(\"CALL T1 proj=inner\") }\n"},
+    "syntax": {"mf.go": "//go:build mage\n\npackage main\n\nimport \"fmt\"\n\nfunc T1( { fmt.Println(\"CALL T1 proj=inner\") }\n"},
+    "type": {"mf.go": "//go:build mage\n\npackage main\n\nimport \"fmt\"\n\nfunc T1() error { fmt.Println(\"CALL T1 proj=inner\"); return 5 }\n"},
+    "dup": {"mf.go": "//go:build mage\n\npackage main\n\nfunc T1() {}\nfunc T1x() {}\nfunc T1X() {}\n"},
+}
+
+
+def nest_project(name):
+    """failing project directories inside one (in1_*) and two (mid/in2_*) levels of valid mage projects: the outer one
+    with magefiles in the directory, the middle one with a magefiles/ folder; plus a valid inner project"""
+    files = {"mf.go": probe_magefile("outer", "\nfunc Outeronly() { fmt.Println(\"CALL Outeronly proj=outer\") }\n"),
+             "mid/magefiles/mf.go": probe_magefile("mid"),
+             "in1_ok/mf.go": probe_magefile("inner"),
+             "mid/in2_ok/mf.go": probe_magefile("inner")}
+    for k, fs in NEST_BROKEN.items():
+        for rel, text in fs.items():
+            files["in1_%s/%s" % (k, rel)] = text
+            files["mid/in2_%s/%s" % (k, rel)] = text
+    return files
+
+
 PROJECTS = {
+    "nest": nest_project,
     "hist": hist_project,
     "main": {"mf.go": MAGEFILE},
     "def": {"mf.go": MAGEFILE + "\nvar Default = T1\n"},
@@ -1023,6 +1055,27 @@ def table_cases(ctx):
                      pr=prog(mentions=[T1] * len([a for a in args if not a.startswith("-")]))),
                 tokens=[], special="history", oracle=decided, slot="h%d" % hn)
             cs[-1]["hist_break"] = where
+    # --- the project directory that cannot be found / read / parsed / compiled sits INSIDE valid mage projects (one level:
+    #     magefiles in the parent directory; two levels: a parent with a magefiles/ folder inside another project), mage is
+    #     started in it without -d and with -d .: 1, a message, and no body of ANY project runs.  A valid inner project runs
+    #     its own same-named target, not an ancestor's.
+    for level, base in ((1, "in1_"), (2, "mid/in2_")):
+        for k in NEST_BROKEN:
+            for route, args in (("mage", ["t1"]), ("mage", ["-d", ".", "t1"]), ("mage", ["-l"]), ("mage", []), ("hash", ["t1"]), ("mage", ["outeronly"])):
+                if route == "hash" and k not in ("header", "empty"):
+                    continue
+                nwords = len([a for a in args if not a.startswith("-") and a != "."])
+                add("broken project (%s) %d level(s) inside valid ones: mage%s %s" % (k, level, " (hash mode)" if route == "hash" else "", " ".join(args)),
+                    "nest", route, args, 1, scen(fa=fargs(nargs=nwords, hashfast=(route == "hash")), pr=prog(mentions=[T1] * nwords)),
+                    tokens=[], special="nested", slot="n%d" % level)
+                cs[-1]["cwd"] = base + k
+                cs[-1]["want"]["projects"] = []
+        for args in (["t1"], ["-d", ".", "t1", "t2"]):
+            nwords = len([a for a in args if not a.startswith("-") and a != "."])
+            add("valid project %d level(s) inside valid ones: mage %s" % (level, " ".join(args)), "nest", "mage", args, 0,
+                scen(fa=fargs(nargs=nwords), pr=prog(mentions=[T1] * nwords)), special="nested", slot="n%d" % level, want_ran=nwords)
+            cs[-1]["cwd"] = base + "ok"
+            cs[-1]["want"]["projects"] = ["inner"]
     # --- -compile
     add("-compile out", "main", "mage", ["-compile", "../compiled-out"], 0, scen(fa=fargs(compile=True)), special="compile-out")
     add("-compile -goos", "main", "mage", ["-goos", "linux", "-compile", "../compiled-out2"], 0, scen(fa=fargs(compile=True, goosarch=True)), special="compile-out")
@@ -1207,7 +1260,7 @@ def exec_case(slot, c):
             os.makedirs(d, exist_ok=True)
             if chattr("+i", d):
                 locked.append(d)
-        rc, out, err = run_proc(argv, slot.dir, e, devfull=(special == "devfull"))
+        rc, out, err = run_proc(argv, os.path.join(slot.dir, c["cwd"]) if c.get("cwd") else slot.dir, e, devfull=(special == "devfull"))
         if special == "clean-stuck":
             note["cache_left"] = sorted(os.listdir(cache))
         if special == "compile-immutable":
@@ -1219,10 +1272,10 @@ def exec_case(slot, c):
             chattr("-i", p)
     if special in ("clean-stuck", "init-immutable", "compile-immutable") and not locked:
         note["not_exercised"] = "chattr +i failed"
-    if special == "history":
+    if special in ("history", "nested"):
         # what the go tool answered, as mage reports it (every one of them means "cannot be built")
         cls = projlib.stderr_class(err)
-        flag = {"list-error": "list_err", "parse-error": "parse_err", "compile-error": "compile_err"}.get(cls)
+        flag = {"list-error": "list_err", "parse-error": "parse_err", "compile-error": "compile_err", "no-magefiles": "nofiles", "dupe": "parse_err"}.get(cls)
         if flag:
             c["scen"]["build"][flag] = True
         note["stderr_class"] = cls
@@ -1239,8 +1292,9 @@ def exec_case(slot, c):
         note["cache_left"] = os.listdir(cache)
     leftovers = [f for f in os.listdir(slot.dir) if f.startswith("mage_output_file")]
     started = [l.split()[1] for l in out.splitlines() if l.startswith("CALL ") and len(l.split()) > 1]
-    return {"rc": rc, "ran": len([s for s in started if s in TOP]), "started": started, "stderr": err[-1500:], "stdout_tail": out[-300:],
-            "msg": bool(err.strip()), "note": note, "leftovers": leftovers}
+    projects = sorted(set(t[5:] for l in out.splitlines() if l.startswith("CALL ") for t in l.split()[2:] if t.startswith("proj=")))
+    return {"rc": rc, "ran": len([s for s in started if s in TOP]), "started": started, "projects": projects, "stderr": err[-1500:],
+            "stdout_tail": out[-300:], "msg": bool(err.strip()), "note": note, "leftovers": leftovers}
 
 
 def judge(c, ob):
@@ -1254,6 +1308,8 @@ def judge(c, ob):
             bad.append(("exit-status", "exit status 0 although the command failed"))
     elif ob["rc"] != w["exit"]:
         bad.append(("exit-status", "exit status %d, the property sentence says %d" % (ob["rc"], w["exit"])))
+    if w.get("projects") is not None and ob.get("projects") != w["projects"]:
+        bad.append(("wrong-project-ran", "bodies of project(s) %s ran (CALL lines: %s), expected %s" % (ob.get("projects"), ob["started"], w["projects"] or "none")))
     dup = sorted(set(x for x in ob["started"] if ob["started"].count(x) > 1))
     if dup:
         bad.append(("body-started-twice", "bodies started more than once in one invocation: %s (CALL lines: %s)" % (dup, ob["started"])))
@@ -1319,6 +1375,7 @@ def run(ctx):
         ctx.notes.append("chattr +i is not possible on the temp file system: the -clean / -init / -compile cases with an "
                          "undeletable entry / unwritable directory are not exercised in this run")
     ctx.prove(["Props/C05.vo", "Run/eval_C05.vo"], extra_props=["Compose_C15_C05", "Compose_C04_C05"])   # + compositions C15 <-> C05, C04 => C05 (the dispatch loop is the mention segmentation)
+    import extractlib; extractlib.fn_tie(ctx, "C05")   # mg.ExitStatus, sh.ExitStatus, sh.CmdRan re-translated from the tree and proved equal to ExitChain's (DESIGN 3.5)
     ctx.trusted_base += [
         "checks/c05.py: the generated magefile (act: failure palette selected through VERIF_SCEN), the scenario generator, the mapping "
         "behaviour -> abstract body (abs_body), the Coq printer, the oracle (o_status, oracle_line, the `want` column of table_cases)",
